@@ -222,11 +222,18 @@ type SendFn func(recipients []primitives.MemberId, msg *interfaces.ConsensusRawM
 
 type Communication struct {
 	Send SendFn
+	// Fail, when set, is asked before every send: it returns the recipients that actually get the message and the error that
+	// SendConsensusMessage reports to the library (a transport that fails half way through a broadcast).
+	Fail func(recipients []primitives.MemberId, message *interfaces.ConsensusRawMessage) ([]primitives.MemberId, error)
 }
 
 func (c *Communication) SendConsensusMessage(ctx context.Context, recipients []primitives.MemberId, message *interfaces.ConsensusRawMessage) error {
+	var err error
+	if c.Fail != nil {
+		recipients, err = c.Fail(recipients, message)
+	}
 	c.Send(recipients, message)
-	return nil
+	return err
 }
 
 // ---------------------------------------------------------------- storage recorder
